@@ -1,0 +1,41 @@
+//! Verification hook (cargo feature `verif`, off by default): additional
+//! applications of `#[push_state(builder)]` on struct shapes that differ from
+//! `PushState`, so that the static checks in the verification framework see
+//! more than one expansion of the macro. Nothing here is used by the library.
+#![allow(dead_code, missing_docs, clippy::all, clippy::pedantic, clippy::nursery)]
+
+use std::collections::HashMap;
+
+use crate::{
+    instruction::{PushInstruction, variable_name::VariableName},
+    push_vm::{program::PushProgram, stack::Stack},
+};
+
+/// One data stack, step limit and inputs.
+#[derive(Default, Debug, Clone, Eq, PartialEq)]
+#[push_macros::push_state(builder)]
+pub(crate) struct VerifOneStack {
+    #[stack(exec)]
+    pub(crate) exec: Stack<PushProgram>,
+    #[stack]
+    pub(crate) int: Stack<i64>,
+    #[input_instructions]
+    pub(crate) input_instructions: HashMap<VariableName, PushInstruction>,
+    #[instruction_step_limit]
+    max_instruction_steps: usize,
+}
+
+/// Three data stacks, a `builder_name` override, a raw-identifier field,
+/// no step-limit field and no input instructions.
+#[derive(Default, Debug, Clone, Eq, PartialEq)]
+#[push_macros::push_state(builder)]
+pub(crate) struct VerifThreeStacks {
+    #[stack(exec)]
+    pub(crate) code: Stack<PushProgram>,
+    #[stack(builder_name = number)]
+    pub(crate) int: Stack<i64>,
+    #[stack]
+    pub(crate) r#type: Stack<bool>,
+    #[stack]
+    pub(crate) text: Stack<String>,
+}
